@@ -109,6 +109,9 @@ def handler_coverage_corpus():
     add("task-resultselector-fail", chain(("A", Task("f1", ResultSelector={"x.$": "$.missing"})), Z), workers=w1)
     add("task-invalid-json-reply", chain(("A", Task("f1")), Z), workers={"f1": {"*": [["raw", "{not json"]]}})
     add("task-invalid-service", chain(("A", {"Type": "Task", "Resource": "arn:aws:nosuch:local::function:x"}), Z))
+    for nm, res in (("states", "arn:aws:states:local::states:frobnicate"), ("sdk", "arn:aws:states:local::aws-sdk:s3:getObject"), ("rpcmessage", "arn:aws:states:local::rpcmessage:frobnicate")):
+        add("task-invalid-service-" + nm, chain(("A", {"Type": "Task", "Resource": res}), Z))
+        add("task-invalid-service-%s-caught" % nm, chain(("A", {"Type": "Task", "Resource": res, "Catch": CATCH_ALL}), Z))
     add("task-invoke-next", chain(("A", Invoke("f1")), Z), workers=w1)
     add("task-invoke-error", chain(("A", Invoke("f1")), Z), workers={"f1": {"*": ERR()}})
     add("task-invoke-timeout", chain(("A", Invoke("f1", TimeoutSeconds=3)), Z), workers={"f1": {"*": NONE}})
@@ -205,6 +208,10 @@ def handler_coverage_corpus():
         workers={"f1": {"*": [["echo"]]}}, input={"a": 5})
     add("branch-task-selector-fails-caught-outside", chain(("P", Parallel([chain(("A1", Task("f1", ResultSelector=BADI))), chain(("B1", Pass(Result=2)))], Catch=CATCH_ALL)), Z),
         workers={"f1": {"*": [["echo"]]}}, input={"a": 5})
+    # the *final* output is over the quota (every transition on the way was within it): the execution fails - status, output, error and
+    # cause of the record and of the notification say so consistently
+    add("terminal-output-too-big", chain(("A", Pass(Result="y" * 100000, ResultPath="$.r")), ("B", Pass(Result="z" * 100000, ResultPath="$.s"))), input={"blob": "x" * 100000})
+    add("terminal-task-output-too-big", chain(("A", Task("f1", ResultPath="$.r"))), workers={"f1": {"*": [["okstr", 100000]]}}, input=big)
     add("unknown-state", {"StartAt": "A", "States": {"A": {"Type": "Pass", "Next": "Nope"}}})
     add("illegal-type", {"StartAt": "A", "States": {"A": {"Type": "Bogus", "End": True}}})
     add("express-pass", chain(("A", Pass(Result=1, ResultPath="$.a")), Z), typ="EXPRESS")
@@ -719,6 +726,8 @@ def child_family(tier="quick"):
         addtok("token-malformed-%s-then-valid" % act, [dict(base, mangle=m, tag="malformed")
                                                       for m in ("truncate", "notbase64", "nosuffix", "nocolon", "binary", "suffix-only", "empty", "int", "list", "missing")] + [ok], allowed=A42)
     addtok("token-never", [], allowed=[["FAILED", "States.Timeout"]])
+    # the worker answers the request itself (ignored) and no callback ever comes: the task still times out
+    addtok("token-rpc-reply-never-callback", [], workers={"ft": {"*": [["delay", ["ok", {"ignored": True}]]]}}, allowed=[["FAILED", "States.Timeout"]])
     addtok("token-late", [dict(ok, after_quiet=True, tag="late")], allowed=[["FAILED", "States.Timeout"]])
     addtok("token-rpc-reply-before-callback", [ok], workers={"ft": {"*": [["delay", ["ok", {"ignored": True}]]]}}, allowed=A42)
     for nm, val in (("string", "accepted"), ("number", 7), ("zero", 0), ("array", [1]), ("null", None), ("false", False)):
@@ -731,5 +740,55 @@ def child_family(tier="quick"):
     addtok("token-crash-rpc-reply-then-callback", [cr_, dict(ok, after_idle=True)], workers={"ft": {"*": [["delay", ["ok", {"ignored": True}]]]}},
            allowed=A42 + [["FAILED", "States.Timeout"]], schedule="timed", delay_budget=1)
     addtok("token-crash-then-callback", [cr_, dict(ok, after_idle=True)], allowed=A42)
+    # ... and the worker's answer is an error while the callback is also sent before the Task event has been redelivered: both are
+    # parked under the same correlation id; the error answer wins or the callback does, nothing else
+    addtok("token-crash-rpc-error-and-callback", [cr_, ok], workers={"ft": {"*": [["delay", ["err", "E.rpc", "worker failed"]]]}}, allowed=A42 + [["FAILED", "E.rpc"]])
+    # a child execution launched with .waitForTaskToken: the parent's task completes by the callback (the token travels in the child's
+    # input to the child's worker), not by the child's end
+    ltok = {"Type": "Task", "Resource": SFN + "startExecution.waitForTaskToken", "TimeoutSeconds": 8, "ResultPath": "$.cb",
+            "Parameters": {"StateMachineArn": sm_arn("c"), "Name": "c1", "Input": {"from": "parent", "token.$": "$$.Task.Token"}}}
+    child_tok = chain(("CA", Task("ft")), ("CZ", Pass(Result="done", ResultPath="$.z")))
+    for nm, scr, alw in (("success", [ok], A42), ("failure", [fail], [["FAILED", "E.cb"]]), ("never", [], [["FAILED", "States.Timeout"]])):
+        sc = multi("token-child-launch-%s" % nm, {"m": {"definition": chain(("T", ltok), Z)}, "c": {"definition": child_tok}}, [{"machine": "m", "name": "p1", "input": {"k": 1}}],
+                   workers={"ft": {"*": OK({"child": "ran"})}}, family="token-child-launch-%s" % nm, parent_arn=exec_arn("m", "p1"), child_form="token", allowed=alw, completes_without_callback=False)
+        sc["script"] = [dict(st, op="start") for st in sc["starts"]] + scr
+        sc["starts"] = []
+        out.append(sc)
     addtok("token-caught", [fail], state=dict(tok, Catch=[{"ErrorEquals": ["E.cb"], "Next": "Z", "ResultPath": "$.err"}]), allowed=[["SUCCEEDED", None]])
+    return out
+
+def update_family(tier="quick"):
+    """A definition replaced through UpdateStateMachine between two executions of the machine (same ARN, same state names): the first
+    execution ran the old definition, the second runs the new one - nothing remembered per (machine, state name) may outlive the update."""
+    from ref import asl as RA
+    out = []
+    Z = ("Z", Pass())
+    echo = {"fi": {"*": [["echo"]]}, "f1": {"*": OK("from-f1")}, "f2": {"*": OK("from-f2")}, "f3": {"*": [["err", "E1", "x"], ["err", "E1", "x"], ["ok", "third"]]}}
+    def add(name, v1, v2, inp, fan=False, inp2=None, **kw):
+        inp2 = inp if inp2 is None else inp2
+        sc = multi("update-" + name, {"m": {"definition": v1}}, [], workers=echo, family="update-" + name, **kw)
+        sc["script"] = [{"op": "start", "machine": "m", "name": "e1", "input": inp},
+                        {"op": "api", "action": "UpdateStateMachine", "params": {"stateMachineArn": sm_arn("m"), "definition": json.dumps(v2)}, "after_quiet": True, "tag": "update"},
+                        {"op": "start", "machine": "m", "name": "e2", "input": inp2, "after_quiet": True}]
+        exp = {}
+        for nm, d, inp in (("e1", v1, inp), ("e2", v2, inp2)):
+            try:
+                r = RA.run(d, copy.deepcopy(inp), RA.ScriptedTasks(echo), context={"Execution": {"Input": copy.deepcopy(inp), "Name": nm}, "__epoch": 1900000000.0}, exec_timeout=300)
+                exp[exec_arn("m", nm)] = {"status": r.status, "output": r.output, "error": r.error}
+            except RA.Unjudged as e:
+                exp[exec_arn("m", nm)] = {"status": None, "why": str(e)}
+        sc["expect"] = exp
+        sc["fanout"] = fan
+        out.append(sc)
+    add("pass-chain", chain(("A", Pass(Result=1, ResultPath="$.a")), Z), chain(("A", Pass(Result=2, ResultPath="$.a")), ("B", Pass(Result="new", ResultPath="$.b")), Z), {"k": 1})
+    add("task-resource", chain(("T", Task("f1", ResultPath="$.r")), Z), chain(("T", Task("f2", ResultPath="$.r")), Z), {"k": 1})
+    add("choice-rule", chain(("C", Choice([{"Variable": "$.k", "NumericEquals": 1, "Next": "Y"}], default="Z")), ("Y", Pass(Result="y", End=True)), Z),
+        chain(("C", Choice([{"Variable": "$.k", "NumericEquals": 2, "Next": "Y"}], default="Z")), ("Y", Pass(Result="y", End=True)), Z), {"k": 1})
+    it = chain(("I", Task("fi")))
+    add("map-maxconc-1-to-2", chain(("M", Map(it, MaxConcurrency=1)), Z), chain(("M", Map(it, MaxConcurrency=2)), Z), [1, 2, 3, 4], fan=True, maxc={"fi": 2})
+    add("map-maxconc-2-to-1", chain(("M", Map(it, MaxConcurrency=2)), Z), chain(("M", Map(it, MaxConcurrency=1)), Z), [1, 2, 3], fan=True, maxc={"fi": 2})
+    add("parallel-branch-added", chain(("P", Parallel([chain(("A1", Task("f1")))])), Z), chain(("P", Parallel([chain(("A1", Task("f1"))), chain(("B1", Task("f2")))])), Z), {"k": 1}, fan=True)
+    add("map-processor-changed", chain(("M", Map(it)), Z), chain(("M", Map(chain(("I", Task("fi")), ("J", Pass(Result="j"))))), Z), [1, 2], fan=True)
+    add("retry-attempts", chain(("T", Task("f3", Retry=[{"ErrorEquals": ["States.ALL"], "IntervalSeconds": 1, "MaxAttempts": 1}], Catch=CATCH_ALL)), Z),
+        chain(("T", Task("f3", Retry=[{"ErrorEquals": ["States.ALL"], "IntervalSeconds": 1, "MaxAttempts": 2}], Catch=CATCH_ALL)), Z), {"k": 1}, inp2={"k": 2})
     return out
